@@ -402,7 +402,10 @@ func TestC33(t *testing.T) {
 	ports := []string{"", ":9000"}
 	nCases := 0
 	for _, e := range c33EndpointPairs {
-		for _, b := range buckets {
+		// a dotted bucket name that contains the API endpoint as inner labels
+		// ("media.<api>.backup"): only the *suffix* of the host is the endpoint
+		inner := "media." + e.API + ".backup"
+		for _, b := range append(append([]string{}, buckets...), inner) {
 			for _, port := range ports {
 				if !thorough && port != "" && b != "bkt" {
 					continue
